@@ -129,7 +129,10 @@ class Env:
 
 
 class FnTranslator:
-    def __init__(self, node, lean_name, resolve_call, enum_values, fuel=200):
+    def __init__(self, node, lean_name, resolve_call, enum_values, fuel=200, strict_unwritten=False):
+        # strict_unwritten: an out-parameter never stored through / a local read before assignment is modelled by
+        # CSem.unwritten / CSem.indeterminate (non-zero sentinels) instead of 0 (opt-in: C16)
+        self.strict_unwritten = strict_unwritten
         self.node = node
         self.lean_name = lean_name
         self.resolve_call = resolve_call    # C callee name -> (lean function name, info dict) | None
@@ -427,7 +430,12 @@ class FnTranslator:
     # ---- statements (continuation-passing: `rest` = statements still to run after this one)
     def leaf_return(self, val_expr, env):
         """value-kind return"""
-        parts = [val_expr] + [(env.outs.get(p) or "0") for p in self.null_tested]
+        # an out-parameter that was passed but never stored through on this path keeps what the caller had there:
+        # `CSem.unwritten w` (the sentinel the C harness initialises it with) — never silently 0
+        ptw = {pn: pt[1][0] for pn, pt in self.params if pt[0] == "ptr" and pt[1]}
+        dflt = (lambda p: f"(if {p}_present = true then CSem.unwritten {ptw.get(p, 64)} else 0)") if self.strict_unwritten \
+            else (lambda p: "0")
+        parts = [val_expr] + [(env.outs.get(p) or dflt(p)) for p in self.null_tested]
         e = parts[0] if len(parts) == 1 else "(" + ", ".join(parts) + ")"
         return f"some {e}" if self.may_abort else e
 
@@ -537,7 +545,11 @@ class FnTranslator:
                 else:
                     ln = self.new(nm)
                     env.vars[nm] = (ln, ct)
-                    out += f"{ind}let {ln} := 0  -- uninitialised in C\n"
+                    w = ct[0] if ct[0] != "ptr" else 64
+                    if self.strict_unwritten:
+                        out += f"{ind}let {ln} := CSem.indeterminate {w}  -- uninitialised in C: never silently 0\n"
+                    else:
+                        out += f"{ind}let {ln} := 0  -- uninitialised in C\n"
             return out + self.stmts(rest, env, ind, on_end, loop_exit)
         if k == "ReturnStmt":
             return ind + self.do_return(n, env) + "\n"
